@@ -4,7 +4,7 @@ from __future__ import annotations
 import ast
 
 from engine.defuse import reaching_defs, value_sources
-from engine.flow import (def_types, dominating_guards, falls_through, must_pass, path_avoiding,
+from engine.flow import (def_types, dominating_guards, guard_atoms, falls_through, must_pass, path_avoiding,
                          reachable_from_entry, returns_of, same_name_value)
 from engine.model import AnalysisError
 from engine.types import ANY, FnTypes
@@ -367,10 +367,9 @@ def fast_path_guard(an, fn, node, data_expr, avoid=None):
     field and the receiver's, where the data handed on is X (or comes from iterating X)?  With *avoid* (the nodes that
     re-define the data variable) only the paths on which the original value is still live are considered."""
     cls = fn.cls
-    guards = dominating_guards(an, fn, node, avoid)
+    atoms = guard_atoms(an, fn, node, avoid)      # dominating outcomes, local flags written out
     xs = set()
-    for t, truth in guards:
-        e = t.ast
+    for e, truth, t in atoms:
         if truth and isinstance(e, ast.Call) and isinstance(e.func, ast.Name) and e.func.id == "isinstance" \
                 and len(e.args) == 2 and isinstance(e.args[0], ast.Name):
             spec = an.ft(fn).class_spec(e.args[1], {})
@@ -379,8 +378,7 @@ def fast_path_guard(an, fn, node, data_expr, avoid=None):
     if not xs:
         return False, "no dominating isinstance(x, %s) guard" % cls.name
     ident = set()
-    for t, truth in guards:
-        e = t.ast
+    for e, truth, t in atoms:
         if not truth:
             continue
         if isinstance(e, ast.Compare) and len(e.ops) == 1 and isinstance(e.ops[0], ast.Is):
@@ -390,7 +388,8 @@ def fast_path_guard(an, fn, node, data_expr, avoid=None):
                     ident.add(x)
         if isinstance(e, ast.Call) and isinstance(e.func, ast.Attribute) and isinstance(e.func.value, ast.Name) \
                 and e.func.value.id == fn.self_name and e.args and isinstance(e.args[0], ast.Name):
-            for tg in an.callees(fn, an.cfg(fn).nodes_for(e)[0]):
+            cn = an.cfg(fn).nodes_for(e)
+            for tg in (an.callees(fn, cn[0]) if cn else []):
                 if _is_identity_conjunction(an, tg):
                     ident.add(e.args[0].id)
     good = xs & ident
